@@ -64,6 +64,9 @@ func ReadFile(r io.Reader) (File, []string, error) {
 				if err := expectAnyOfNext(tr, tokenKindCloseSquare); err != nil {
 					return f, warnings, err
 				}
+				// like an opcode, the attribute may sit on its own line without
+				// detaching the comment above it from the enum below it
+				optNewline(tr)
 			}
 			continue
 		case tokenKindEnum:
@@ -141,6 +144,8 @@ func ReadFile(r io.Reader) (File, []string, error) {
 		}
 		nextCommentLines = []string{}
 		nextRecordOpCode = 0
+		// [flags] applies to the one enum that follows it, not to everything after
+		nextRecordBitFlags = false
 	}
 	return f, warnings, nil
 }
